@@ -45,6 +45,8 @@ SIG.update({
     "divrem_hensel_qr_1_1": "L O:n I:n n lo", "divrem_hensel_qr_1_2": "L O:n I:n n lo", "divrem_hensel_r_1": "L I:n n lo",
     "modexact_1c_odd": "L I:n n lo l",
     "divrem_euclidean_qr_1": "L O:n K0 I:n n l1",
+    "divrem_euclidean_qr_2": "L O:n X:n n N:2", "divrem_2": "L O:n+1 K0 X:n n N:2",
+    "rsh_divrem_hensel_qr_1_1": "L O:n I:n n lo s K0", "rsh_divrem_hensel_qr_1_2": "L O:n I:n n lo s K0",
 })
 # where the generic C file is not a plain re-implementation, or does not exist: Python definitions  f(ins, scalars) -> (ret, [outs])
 PYREF = {}
@@ -200,11 +202,11 @@ def bind(handle, name, sig):
     f.restype = _RET[ret]
     at = []
     for p in ps:
-        if p[0] in "OIX" and ":" in p:
+        if p[0] in "OIXN" and ":" in p:
             at.append(c_void_p)
         elif p in ("n", "un", "vn") or p.startswith("K"):
             at.append(c_long)
-        elif p == "c":
+        elif p in ("c", "s"):
             at.append(c_uint)
         else:
             at.append(c_uint64)
@@ -224,8 +226,10 @@ def sizes_for(name, N):
                 out.append({"un": un, "vn": vn, "n": un})
         return out
     lo = 1
-    if name in ("divrem_hensel_qr_1_2",):
+    if name in ("divrem_hensel_qr_1_2", "divrem_2", "divrem_euclidean_qr_2", "rsh_divrem_hensel_qr_1_2"):
         lo = 2
+    if name == "rsh_divrem_hensel_qr_1_2":
+        lo = 3          # tune/tuneup.c: RSH_DIVREM_HENSEL_QR_1_THRESHOLD >= 3, so the _1_2 form never sees fewer limbs
     return [{"n": n} for n in range(lo, N + 1)]
 
 
@@ -253,7 +257,7 @@ def _fam(n):
     return v
 
 
-SCALARS = {"c": [1, 2, 31, 32, 33, 62, 63], "l": [0, 1, 2, M, al.H, M - 1, 0x123456789ABCDEF1], "lo": [1, 3, M, al.H + 1, 0xAAAAAAAAAAAAAAAB, 0x123456789ABCDEF1], "cy": [0, 1],
+SCALARS = {"s": [1, 7, 63], "c": [1, 2, 31, 32, 33, 62, 63], "l": [0, 1, 2, M, al.H, M - 1, 0x123456789ABCDEF1], "lo": [1, 3, M, al.H + 1, 0xAAAAAAAAAAAAAAAB, 0x123456789ABCDEF1], "cy": [0, 1],
            "c3": [0, 1, 2], "l1": [1, 2, 3, M, al.H, al.H + 1, 0x123456789ABCDEF1, 10]}
 
 
@@ -261,7 +265,7 @@ def cases_for(name, sig, N, limit=None):
     """(sizes, content-rotation k, scalar dict)"""
     ret, ps = parse_sig(sig)
     scal = [p for p in ps if p in SCALARS]
-    nbuf_in = sum(1 for p in ps if p[0] in "IX" and ":" in p)
+    nbuf_in = sum(1 for p in ps if p[0] in "IXN" and ":" in p)
     for sz in (sizes_for(name, N) if limit is None else sizes_limited(name, N, limit)):
         n = sz["n"]
         nc = len(_fam(n)) if n <= 3 else 12
@@ -302,7 +306,7 @@ def run_case(A, f, name, sig, sz, k, k2, sc, capture_inputs=False):
     args = []
     j = 0
     for p in ps:
-        if p[0] in "OIX" and ":" in p:
+        if p[0] in "OIXN" and ":" in p:
             ln = max(0, int(eval(p[2:], {}, env)))
             bufs.append([p[0], ln, off, None])
             args.append(None)
@@ -318,8 +322,10 @@ def run_case(A, f, name, sig, sz, k, k2, sc, capture_inputs=False):
     ins = []
     for b in bufs:
         kind, ln, o, _ = b
-        if kind in "IX":
+        if kind in "IXN":
             v = contents(ln, k + j * (1 + k2) + (3 * j if k2 == 2 else 0)) if ln else 0
+            if kind == "N":
+                v |= 1 << (64 * ln - 1)          # normalised divisor
             if name in ("divexact_byff", "divexact_by3c") and False:
                 pass
             j += 1
@@ -330,7 +336,7 @@ def run_case(A, f, name, sig, sz, k, k2, sc, capture_inputs=False):
     cargs = []
     bi = 0
     for p in ps:
-        if p[0] in "OIX" and ":" in p:
+        if p[0] in "OIXN" and ":" in p:
             cargs.append(A.addr(bufs[bi][2]))
             bi += 1
         else:
@@ -340,7 +346,7 @@ def run_case(A, f, name, sig, sz, k, k2, sc, capture_inputs=False):
     outs = []
     for kind, ln, o, v in bufs:
         val = A.get(o, ln) if ln else 0
-        if kind == "I":
+        if kind in "IN":
             if val != v:
                 outs.append(("INPUT-MODIFIED", ln, val))
         else:
